@@ -28,6 +28,12 @@ type LoopSpec struct {
 	WorkBound  *Clause
 }
 
+// ExceptClause is a postcondition that every registered executor must satisfy, except the executors of the listed commands.
+type ExceptClause struct {
+	Names  []string
+	Clause *Clause
+}
+
 // FuncContract is the contract of one function / closure / interface method / extern / functype.
 type FuncContract struct {
 	Key       string // e.g. proto.(*Parser).nextLengthBytes ; executor:GETRANGE ; interface:io.Reader.Read ; extern:strconv.Atoi
@@ -36,6 +42,7 @@ type FuncContract struct {
 	Requires  []*Clause
 	Captured  []*Clause // requires about captured variables of a closure: assumed in the body, established at closure creation (listed as assumption)
 	Ensures   []*Clause
+	EnsuresExcept []ExceptClause // functype only: postconditions of every executor except the named commands
 	Assigns   []string // heap components / ghost names; nil = default
 	HasAssign bool
 	Loops     map[int]*LoopSpec
@@ -273,6 +280,17 @@ func (cs *ContractSet) parseFile(path, pkg string) error {
 			} else {
 				cur.Ensures = append(cur.Ensures, c)
 			}
+		case "ensures_except":
+			// ensures_except CMD1,CMD2 <clause>
+			if cur == nil {
+				return fail("ensures_except outside a block")
+			}
+			names, body := splitWord(rest)
+			c, err := parseClause("ensures", body)
+			if err != nil {
+				return err
+			}
+			cur.EnsuresExcept = append(cur.EnsuresExcept, ExceptClause{Names: strings.Split(names, ","), Clause: c})
 		case "spawned":
 			if cur == nil {
 				return fail("spawned outside a block")
